@@ -199,6 +199,25 @@ def rule(program, rep, rule_id, modules, floor=1, domains=None):
     from . import falsy, stale
     falsy.rule(program, rep, rule_id, modules, domains)
     stale.rule(program, rep, rule_id, modules)
+    # one mutable object filed under every key / position and then changed
+    # through one entry (dict.fromkeys(keys, []), [[]] * n)
+    from .link import shared_mutable_values
+    for mname in modules:
+        m = program.modules.get(mname)
+        if m is None:
+            continue
+        for q, d in sorted(m.defs.items()):
+            if not isinstance(d, ast.FunctionDef) or \
+                    getattr(d, "_virtual", False):
+                continue
+            for v_, nm_, c_ in shared_mutable_values(d):
+                rep.bad(rule_id, "%s:%s" % (mname, q),
+                        "one mutable object under every key",
+                        "%s binds %s to %s: every key / position holds the "
+                        "SAME object, and %s changes an entry in place - "
+                        "the change shows through every entry" % (
+                            q, nm_, ast.unparse(v_),
+                            ast.unparse(c_)[:60]), v_)
     res = check(program, modules)
     for m in modules:
         if m in program.modules:
